@@ -1,9 +1,9 @@
 import ModVerif.Drv.Util
-namespace ModVerif.Drv.Module
+namespace ModVerif.Drv.Tile
 open ModVerif ModVerif.Drv
 
 /-- stub: no ops modelled yet -/
 def handle : Handler
   | _, _ => none
 
-end ModVerif.Drv.Module
+end ModVerif.Drv.Tile
